@@ -161,7 +161,7 @@ func fRejTail(l *fLine) bool { return l.junk != "" || l.lowerTail }
 
 // tabTailAt: posting line i has no inline comment, its trailing blanks contain a tab, and it does
 // not end in CR LF (there the parser rejects the CR before and after formatting alike).
-func (d *fDoc) tabTailAt(i int) bool { return d.lines[i].tabTail && !d.crlf(i) }
+func (d *fDoc) tabTailAt(i int) bool { return d.lines[i].tabTail }
 
 func (d *fDoc) add(l fLine) { d.lines = append(d.lines, l) }
 
